@@ -564,6 +564,9 @@ class Interp:
             return ('builtin', name)
         if name == 'deepcopy' and mod is not None and self._imports_from(mod, 'copy', 'deepcopy'):
             return native(lambda it, a, k: it.deepcopy(a[0], {}))
+        if name == 'chain' and mod is not None and self._imports_from(mod, 'itertools', 'chain'):
+            # itertools.chain, consumed eagerly (the interpreter's generators are eager too)
+            return native(lambda it, a, k: [x for part in a for x in it.iterate(part, node)])
         self.fail(node, 'name ' + name)
 
     @staticmethod
